@@ -10,7 +10,7 @@
 From XSG.Model Require Import Strings Chars Convert Necessity Element Parser Dom Spec Render RustRender RustLoop Reparse.
 From XSG.Generated Require Import LoopRs EntryRs RenderRs.
 From XSG.Proofs Require Import ElementProofs SkelProofs SpecProofs ReprDefs ParserFaults UnionProofs AdmitProofs
-  ConvertProofs WfProofs NamesRsProofs RenderRsProofs ReparseProofs InferProofs EventLevel LoopRsProofs LibraryProofs.
+  ConvertProofs WfProofs NamesRsProofs RenderRsProofs ReparseProofs InferProofs EventLevel LoopRsProofs LibraryProofs LibraryOracles.
 From XSG.Corr Require Import Common Oracles.
 From Coq Require Import String List Permutation.
 Import ListNotations.
@@ -46,6 +46,26 @@ Theorem LIB_reparse : forall mk docs o e,
                 /\ bytes = to_serde_struct o e
                 /\ reparse bytes = Some (map erase' (render_abs o e)).
 Proof. exact library_src_reparse. Qed.
+
+(* the oracles bin/check evaluates on the implementation's output hold of the source's output:
+   parsed back from the bytes, the structs reflect the tree field by field (C16 / C03 reading of a
+   rendering), carry the derive line (C10), are named as C14 says, and - for option strings that can
+   stand in a Rust string literal - are well-formed with unique legal names (C04) *)
+Theorem LIB_oracles : forall mk docs o e,
+  run_src mk docs = Ok e -> tree_names_ok e = true -> options_printable o = true ->
+  exists bytes structs,
+    library_src mk (esize e) docs o = Some bytes /\ reparse bytes = Some structs
+    /\ reflects_b o e (map to_ps structs) = true
+    /\ derive_b o (map to_ps structs) = true
+    /\ names_b o e (map to_ps structs) = true
+    /\ (literal_ok (attribute_prefix o) = true -> literal_ok (text_identifier o) = true ->
+        wf_b (map to_ps structs) = true).
+Proof. exact library_src_oracles. Qed.
+
+(* C16 for parsed trees: whatever the source's parser returns has hereditarily unique child and
+   attribute names *)
+Theorem LIB_C16_parsed_Uniq : forall mk docs e, run_src mk docs = Ok e -> Uniq e.
+Proof. exact run_src_Uniq. Qed.
 
 (* C03: the tree the source infers is the one the path-indexed specification determines *)
 Theorem LIB_C03_exact : forall mk docs,
@@ -96,6 +116,8 @@ Print Assumptions LIB_source_is_model.
 Print Assumptions LIB_source_fails.
 Print Assumptions LIB_C01_admits.
 Print Assumptions LIB_reparse.
+Print Assumptions LIB_oracles.
+Print Assumptions LIB_C16_parsed_Uniq.
 Print Assumptions LIB_C03_exact.
 Print Assumptions LIB_C06_order.
 Print Assumptions LIB_C11_structure_only.
